@@ -13,7 +13,7 @@ import struct
 from sim import core, net, pair
 from harness import run as H
 from ref import codec as RC
-from ref.peer import RefPeer, PeerEOF
+from ref.peer import RefPeer, PeerEOF, PeerProtocolError
 from . import c03
 
 ID = "C19"
@@ -30,7 +30,7 @@ REAL = ["rpyc.core.brine", "rpyc.core.channel.Channel", "rpyc.core.protocol.Conn
 STUB = ["the other party in directions (a)/(b) is the independent reference peer", "sockets/time/locks (simulator)"]
 ASSUMPTIONS = ["ref/codec.py is the published format (tags 0x00-0x1b, immediate ints -0x30..0x9f as 0x20..0xef, '!LB' header, newline trailer, "
                "zlib level 1 above 3000 bytes, kinds 1-3, labels 1-4, handlers 1-20)"]
-PROBES = ["c19:compressed-frame", "c19:long-tag", "c19:ref-client", "c19:ref-server", "c19:real-real", "c19:boxing-label"]
+PROBES = ["c19:compressed-frame", "c19:long-tag", "c19:ref-client", "c19:ref-server", "c19:real-real", "c19:boxing-label", "c19:incompressible-payload", "c19:async-helper-call"]
 
 
 def check_stream(sim, raw, compress_enabled, who, allow_cut=False):
@@ -108,6 +108,34 @@ def check_box(b, who, depth=0):
     raise core.Violation("constant-differs/label", "%s: unknown boxing label %r" % (who, label))
 
 
+def _tuple_items(box):
+    """the item boxes of a boxed tuple (by value or item-wise), None if the box is not a tuple"""
+    if box[0] == 1 and type(box[1]) is tuple:
+        return [(1, x) for x in box[1]]
+    if box[0] == 2:
+        return list(box[1])
+    return None
+
+
+def check_call_layout(h, box, who):
+    """published argument layout of handler 7 (obj, args, kwargs) / 8 (obj, name, args, kwargs): positional arguments are a tuple,
+    keyword arguments a tuple of (name, value) pairs - both travel as tuples (by value or item-wise), never as a reference"""
+    items = _tuple_items(box)
+    n = 3 if h == RC.H_CALL else 4
+    if items is None or len(items) != n:
+        raise core.Violation("request-layout/h%d" % h, "%s: handler %d request carries %r" % (who, h, str(box)[:200]))
+    if _tuple_items(items[n - 2]) is None:
+        raise core.Violation("request-layout/h%d" % h, "%s: positional arguments of handler %d travel as %r, not as a tuple" % (who, h, str(items[n - 2])[:120]))
+    kitems = _tuple_items(items[n - 1])
+    if kitems is None:
+        raise core.Violation("request-layout/h%d" % h, "%s: keyword arguments of handler %d travel as %r, not as a tuple of (name, value) pairs" % (
+            who, h, str(items[n - 1])[:120]))
+    for pr in kitems:
+        pi = _tuple_items(pr)
+        if pi is None or len(pi) != 2 or pi[0][0] != 1 or type(pi[0][1]) is not str:
+            raise core.Violation("request-layout/h%d" % h, "%s: keyword argument entry %r is not a (name, value) pair" % (who, str(pr)[:120]))
+
+
 def check_message(v, who):
     if type(v) is not tuple or len(v) != 3:
         raise core.Violation("frame-layout", "%s: message is not (kind, seq, args): %r" % (who, v))
@@ -120,6 +148,8 @@ def check_message(v, who):
         if type(args) is not tuple or len(args) != 2 or type(args[0]) is not int or not 1 <= args[0] <= 20:
             raise core.Violation("constant-differs/handler", "%s: request args %r" % (who, args))
         check_box(args[1], who)
+        if args[0] in (RC.H_CALL, RC.H_CALLATTR):
+            check_call_layout(args[0], args[1], who)
     elif kind == 2:
         check_box(args, who)
 
@@ -139,6 +169,10 @@ class Target(object):
 
     def exposed_big(self, n):
         return b"q" * n
+
+    def exposed_noise(self, n, seed):
+        import random as _r
+        return _r.Random(seed).randbytes(n)
 
     def exposed_make(self, what):
         import time as _t
@@ -236,7 +270,7 @@ def run_one(choices, params):
                 raise core.Violation("meaning-differs", "%s: expected value %r, got %r" % (what, want, r[1]))
         for _ in range(8 + w.draw(25)):
             op = w.pick(("callattr", "callattr", "getattr", "call", "str", "repr", "hash", "dir", "cmp", "buffiter", "inspect", "setattr",
-                         "big", "ctx", "del", "boxing"))
+                         "big", "ctx", "del", "boxing", "noise"))
             if op == "callattr":
                 args = tuple(values(w.draw(4)))
                 kwargs = tuple(sorted(("k%d" % i, v) for i, v in enumerate(values(w.draw(3)))))
@@ -296,6 +330,14 @@ def run_one(choices, params):
                 expect_value(ask(RC.H_CTXEXIT, (T, (root, (V, None))), "ctxexit"), False, "ctxexit")
                 if svc.items[-2:] != ["enter", "exit"]:
                     raise core.Violation("meaning-differs", "context manager calls: %r" % (svc.items[-4:],))
+            elif op == "noise":
+                # payloads that do not shrink under zlib (the flag byte must still tell the truth)
+                import random as _r
+                n, sd = sized(), w.draw(1000)
+                want = _r.Random(sd).randbytes(n)
+                expect_value(ask(RC.H_CALLATTR, (T, (root, (V, "noise"), (V, (n, sd)), (V, ()))), "noise"), want, "noise(%d)" % n)
+                expect_value(ask(RC.H_CALLATTR, (T, (root, (V, "echo"), (V, (want,)), (V, ()))), "echo-noise"), ((want,), ()), "echo noise arg")
+                sim.count("c19:incompressible-payload")
             elif op == "boxing":
                 # published boxing rule: only an object whose type is exactly tuple travels as LABEL_TUPLE (a plain value when all of it
                 # is serializable); instances of subclasses of value types travel by reference (label 4 + 3-item id pack)
@@ -390,6 +432,11 @@ def run_one(choices, params):
                     kind, seq, args = m
                     if kind != RC.MSG_REQUEST:
                         continue
+                    try:
+                        check_message(m, "real client")
+                    except core.Violation as v:
+                        sim.fail(v)
+                        return
                     h, boxed = args
                     seen.append(h)
                     info["states"].add("b:h%d" % h)
@@ -460,8 +507,23 @@ def run_one(choices, params):
             del seen[:]
         did(RC.H_GETROOT, "conn.root")
         for _ in range(8 + w.draw(25)):
-            op = w.pick(("call", "call", "getattr", "setattr", "str", "repr", "hash", "dir", "eq", "ne", "buffiter", "iter", "ctx", "big", "delattr"))
+            op = w.pick(("call", "call", "getattr", "setattr", "str", "repr", "hash", "dir", "eq", "ne", "buffiter", "iter", "ctx", "big", "delattr",
+                         "async", "timed"))
             del seen[:]
+            if op in ("async", "timed"):
+                # the helpers build handler-7 requests of their own
+                args = tuple(values(w.draw(3)))
+                kw = dict(("k%d" % i, v) for i, v in enumerate(values(w.draw(3))))
+                fn = root.echo
+                wrapper = rpyc.async_(fn) if op == "async" else rpyc.timed(fn, 50)
+                res = wrapper(*args, **kw)
+                r = res.value
+                sim.count("c19:async-helper-call")
+                did(RC.H_CALL, "asynchronous call")
+                if not RC.same(r, (args, tuple(sorted(kw.items())))):
+                    raise core.Violation("meaning-differs", "async echo%r%r came back as %r" % (args, kw, r))
+                del res, wrapper, fn
+                continue
             if op == "call":
                 args = tuple(values(w.draw(4)))
                 kw = dict(("k%d" % i, v) for i, v in enumerate(values(w.draw(3))))
@@ -603,6 +665,8 @@ def run_one(choices, params):
             return main(sim, k)
         except PeerEOF:
             raise core.Violation("reference-request-rejected", "the real side hung up on the reference peer")
+        except PeerProtocolError as e:
+            raise core.Violation("frame-layout", "the reference peer cannot read what the real side wrote: %s" % e)
     out, sim = H.simulate(choices, guarded, strategy=strat, netcfg=cfg, step_cap=3000000)
     if out["kind"] == "deadlock":
         out = {"kind": "violation", "cls": "reference-request-rejected", "detail": "deadlock %s" % (H.blocked_in(out["report"]),), "sig": None,
